@@ -213,8 +213,14 @@ class Cutter(ast.NodeTransformer):
         """replace break/continue that belong to THIS loop by raises"""
         class J(ast.NodeTransformer):
             def visit_For(s, n):
+                # break / continue inside a nested loop's body belong to that loop; inside its `else` to this one
+                n.orelse = [s.visit(x) for x in n.orelse]
                 return n
-            visit_While = visit_AsyncFor = visit_FunctionDef = visit_Lambda = visit_ClassDef = visit_For
+            visit_While = visit_AsyncFor = visit_For
+
+            def visit_FunctionDef(s, n):
+                return n
+            visit_Lambda = visit_ClassDef = visit_AsyncFunctionDef = visit_FunctionDef
             def visit_Break(s, n):
                 return ast.copy_location(ast.Raise(exc=ast.Call(ast.Name('__LoopBreak', ast.Load()), [], []), cause=None), n)
             def visit_Continue(s, n):
